@@ -9,6 +9,7 @@
 import ClairModel.Proofs.TarSeg
 import ClairModel.Proofs.RpmHeader
 import ClairModel.Proofs.RpmDb
+import ClairModel.Proofs.RpmFiles
 import ClairModel.Gen.Tar
 
 namespace ClairModel.Props.C06
@@ -166,6 +167,76 @@ theorem load_panics_typechecked_counterexample :
 theorem load_rejects_witnesses :
     RpmHeader.run nameInt32Header = .loadErr ∧ RpmHeader.run nameStrArrayHeader = .loadErr := by
   decide +kernel
+
+/-! ## the file names of Info.Load (rpm/native_db.go) -/
+
+/-- Tie A: the six alternatives `RpmFiles.filePattern` models are the ones in
+    the current source, and the loop that indexes `dirname[dirindex[j]]` with
+    values from the header still runs under the deferred `recover`. -/
+theorem rpm_file_patterns_match_source :
+    Gen.Rpm.filePatterns = RpmFiles.expectedPatterns ∧ Gen.Rpm.fileLoopUnderRecover = true := by
+  decide
+
+/-- The file-name loop never takes `Info.Load` down: an index outside
+    `dirindex` or `dirname` (fewer indexes than base names, an index that is
+    negative or past the directory list) ends in the `recover` and leaves no
+    file names. -/
+theorem rpm_filenames_no_panic (h : RpmHeader.Header) : RpmFiles.fileNames h ≠ .panic := by
+  unfold RpmFiles.fileNames RpmFiles.fileNamesOf
+  have hr : Gen.Rpm.fileLoopUnderRecover = true := by decide
+  rw [hr]
+  split <;> simp
+
+/-- ... and it gets through exactly when every base name has an index and the
+    index names a directory: the malformed arrays are precisely the ones that
+    are caught. -/
+theorem rpm_fileloop_ok_iff (dirnames : List RpmFiles.Bytes) (dirindexes : List Int) (basenames acc : List RpmFiles.Bytes) :
+    (RpmFiles.fileLoop dirnames dirindexes basenames 0 acc).isSome = true ↔
+      ∀ k, k < basenames.length → ∃ ix, dirindexes[k]? = some ix ∧ 0 ≤ ix ∧ ix.toNat < dirnames.length := by
+  have := RpmFiles.fileLoop_isSome_iff dirnames dirindexes basenames 0 acc
+  simpa [RpmFiles.IndexesOK] using this
+
+/-- `name[1:]` is only taken of names that matched `filePatterns`, and no
+    empty string matches. -/
+theorem rpm_file_pattern_nonempty (s : RpmFiles.Bytes) (h : RpmFiles.filePattern s = true) : 1 ≤ s.length := by
+  cases s with
+  | nil => exact absurd h (by decide)
+  | cons _ _ => simp
+
+/-- Steps and count: one iteration per base name, at most one recorded name
+    each (on top of what the `TagFilenames` arm recorded). -/
+theorem rpm_filenames_count_le (dirnames : List RpmFiles.Bytes) (dirindexes : List Int) (basenames acc out : List RpmFiles.Bytes)
+    (h : RpmFiles.fileLoop dirnames dirindexes basenames 0 acc = some out) : out.length ≤ acc.length + basenames.length :=
+  RpmFiles.fileLoop_length_le _ _ _ _ _ _ h
+
+/-- `path.Join` never returns more than its two arguments and the separator
+    (`path.Clean` only removes). -/
+theorem rpm_join_length_le (dir base : RpmFiles.Bytes) : (RpmFiles.join dir base).length ≤ dir.length + base.length + 1 :=
+  RpmFiles.join_length_le dir base
+
+/-- FULL STATEMENT (memory proportional to the header) — violated by the
+    unchanged code: every base name is joined with a directory name that many
+    base names may share, so the recorded names together can be far larger than
+    the data they come from.  24 base names `x.jar` under one 48-byte directory:
+    the three arrays take 289 bytes of header data, the names recorded 1272.
+    (`finding:` rpm-filenames-quadratic; the harness replays a 13 KB header that
+    makes `Info.Load` allocate several thousand times its size.) -/
+def sharedDir : RpmFiles.Bytes := 47 :: List.replicate 47 97
+def jarBase : RpmFiles.Bytes := [120, 46, 106, 97, 114]
+
+theorem rpm_filenames_quadratic_counterexample :
+    ((RpmFiles.fileLoop [sharedDir] (List.replicate 24 0) (List.replicate 24 jarBase) 0 []).map
+        fun fs => (fs.map (·.length)).sum) = some 1272 ∧
+    sharedDir.length + 1 + 24 * (jarBase.length + 1) + 24 * 4 = 289 := by
+  decide +kernel
+
+/-- what IS bounded: a recorded name is at most as long as its directory, its
+    base name and the separator, so the total is at most
+    (#base names) × (longest directory + longest base name + 1). -/
+theorem rpm_filenames_partial (d b : RpmFiles.Bytes) : ((RpmFiles.join d b).drop 1).length ≤ d.length + b.length := by
+  have := RpmFiles.join_length_le d b
+  simp only [List.length_drop]
+  omega
 
 /-! ## rpm/bdb and rpm/ndb walkers -/
 
